@@ -5,7 +5,9 @@ open Bifrost Bifrost.Envelope Driver
 
 /-! Line protocol for the `envelope` engine (C16, C17, C18).
 
-Abstract ops (`plan`, `run`) take a configuration `nkeys= t= total= grants=sc:k.k;sc:_;…`.
+Abstract ops (`plan`, `run`) take a configuration `nkeys= t= total= grants=sc:k.k;sc:_;…`
+(optional `id=` hex, `nil=1`, `plen=0`, `badkeys=i,j`). `ctxhash` / `autoid` answer with the oracle
+request naming the exact bytes that are hashed.
 Wire-level op `unlockwire` runs the model on real envelope bytes; the primitives are oracles
 answered by the harness (`need dec …`, `need kdf …`, `need open …`) with the real
 peer.DecryptWithPrivKey, zeebo/blake3 and x/crypto chacha20poly1305. -/
@@ -39,12 +41,14 @@ def parseGrantCfg (s : String) : Option GrantConfig :=
 def parseGrants (s : String) : Option (List GrantConfig) :=
   if s = "_" then some [] else (s.splitOn ";").mapM parseGrantCfg
 
-def parseCfg (args : List String) : Option (Nat × Config) := do
-  let nkeys ← kvNat args "nkeys"
-  let t ← kvNat args "t"
-  let total ← kvNat args "total"
-  let gs ← (kv args "grants").bind parseGrants
-  some (nkeys, { threshold := t, totalShares := total, grants := gs })
+/-- arguments of the abstract ops: the configuration (`nil=1`: a nil `*EnvelopeConfig`; `id=`: the
+`EnvelopeId` field, absent = empty), `plen=0`: empty payload, `badkeys=i,j`: recipient keys of an
+unsupported type -/
+structure PlanArgs where
+  nkeys : Nat
+  cfg : Option Config
+  payload : Bytes
+  bad : List Nat
 
 /-- toy key material: key `i` is the byte string `[i+1, 7]` (public = private in the toy primitives) -/
 def toyKey (i : Nat) : Bytes := [UInt8.ofNat (i + 1), 7]
@@ -52,10 +56,30 @@ def toyKey (i : Nat) : Bytes := [UInt8.ofNat (i + 1), 7]
 def toyPayload : Bytes := [112, 97, 121]
 def toyCtx : Bytes := [99, 116, 120]
 def toyNonce : Bytes := List.replicate 24 9
+def toySecret : Nat := 123456789
 
-def toyBuild (nkeys : Nat) (cfg : Config) : Outcome Envelope :=
-  build toyPrims zl 123456789 (fun i => 1000 + 17 * i) toyNonce toyCtx toyPayload
-    ((List.range nkeys).map toyKey) cfg
+def parseCfg (args : List String) : Option PlanArgs := do
+  let nkeys ← kvNat args "nkeys"
+  let t ← kvNat args "t"
+  let total ← kvNat args "total"
+  let gs ← (kv args "grants").bind parseGrants
+  let id ← match kv args "id" with
+    | none => some []
+    | some s => unhex s
+  let bad ← match kv args "badkeys" with
+    | none => some []
+    | some s => parseNatList s
+  let payload := if kv args "plen" = some "0" then [] else toyPayload
+  let cfg : Config := { envelopeId := id, threshold := t, totalShares := total, grants := gs }
+  some ⟨nkeys, if kv args "nil" = some "1" then none else some cfg, payload, bad⟩
+
+def toyBuild (a : PlanArgs) : Outcome Envelope :=
+  buildKeys toyPrims zl toySecret (fun i => 1000 + 17 * i) toyNonce toyCtx a.payload
+    ((List.range a.nkeys).map fun i => if a.bad.contains i then none else some (toyKey i)) a.cfg
+
+/-- `auto` when the envelope carries the id derived from secret ‖ context, else the id itself -/
+def showEnvId (env : Envelope) : String :=
+  if env.envelopeId = toyPrims.idHash (zl.encode toySecret) toyCtx then "auto" else hexOrDash env.envelopeId
 
 def showIds (l : List Nat) : String := if l.isEmpty then "_" else ".".intercalate (l.map toString)
 
@@ -203,23 +227,33 @@ def handle (op : String) (args : List String) : Option String :=
       some (s!"ok id={hexOrDash e.envelopeId} ch={hexOrDash e.contextHash} t={e.threshold} ct={hexOrDash e.ciphertext} " ++
         s!"grants={if e.grants.isEmpty then "_" else ";".intercalate (e.grants.map showG)} keypairs={showBytesList e.keypairs}")
   | "plan" => do
-    let (nkeys, cfg) ← parseCfg args
-    match toyBuild nkeys cfg with
+    let a ← parseCfg args
+    let cfg := a.cfg.getD {}
+    match toyBuild a with
     | .err e => some ("err " ++ showErr e)
     | .panic => some "panic"
     | .ok env =>
-      let total := totalOf cfg ((sumShares nkeys cfg.grants 0).getD 0)
-      some s!"ok t={env.threshold} grants={env.grants.length} total={total} placed={showPlacement cfg total} usable={usableShares cfg.grants total}"
+      let total := totalOf cfg ((sumShares a.nkeys cfg.grants 0).getD 0)
+      some s!"ok t={env.threshold} grants={env.grants.length} total={total} placed={showPlacement cfg total} usable={usableShares cfg.grants total} id={showEnvId env}"
   | "run" => do
-    let (nkeys, cfg) ← parseCfg args
+    let a ← parseCfg args
     let offer ← kvNatList args "offer"
-    match toyBuild nkeys cfg with
+    match toyBuild a with
     | .err e => some ("builderr " ++ showErr e)
     | .panic => some "buildpanic"
     | .ok env =>
       match unlock toyPrims zl toyCtx env (offer.map toyKey) with
       | .opened p r => some ((if p = toyPayload then "opened payload=orig " else "opened payload=OTHER ") ++ showResult r)
       | o => some (showUnlock o)
+  | "ctxhash" => do
+    -- oracle request: the context hash is the BLAKE3-256 of exactly these bytes
+    let ctx ← kvBytes args "ctx"
+    some s!"hash data={hexOrDash (ctxHashPreimage ctx)}"
+  | "autoid" => do
+    -- oracle request: an auto-generated id is hex(BLAKE3-256(data)[:take])
+    let secret ← kvBytes args "secret"
+    let ctx ← kvBytes args "ctx"
+    some s!"hash data={hexOrDash (idPreimage secret ctx)} take={autoIdDigestBytes}"
   | "unlockwire" => unlockWireOracle args
   | _ => none
 
